@@ -1027,6 +1027,16 @@ class SymExec(object):
             self._guard[-1] = (c, False)
             b = E(n.orelse)
             self._guard.pop()
+            if c[0] == 'cmp' and c[1] == 'in' and c[3][0] in ('tuple', 'list', 'set') and 1 <= len(c[3][1]) <= 4 and all(k_[0] == 'const' for k_ in c[3][1]) \
+                    and any(x_[0] == 'fstr' and any(isinstance(p_, tuple) and p_ == c[2] for p_ in x_[1]) for x_ in subterms(a)):
+                # f'ADV{n}' if n in (1, 2) else 'ADV0': the text built from the tested value is one constant per listed value
+                out_ = b
+                for k_ in reversed(c[3][1]):
+                    ak_ = replace_term(a, lambda x_: x_ == c[2], k_)
+                    ak_ = replace_term(ak_, lambda x_: x_[0] == 'fstr', lambda x_: mk_fstr(
+                        [str(p_[1]) if (isinstance(p_, tuple) and p_[0] == 'const' and type(p_[1]) in (int, str)) else p_ for p_ in x_[1]]))
+                    out_ = ('ifexp', ('cmp', '==', c[2], k_), ak_, out_)
+                return out_
             return ('ifexp', c, a, b)
         if isinstance(n, ast.Tuple):
             if n.elts and isinstance(n.elts[-1], ast.Starred) and not any(isinstance(x, ast.Starred) for x in n.elts[:-1]) and len(n.elts) > 1:
